@@ -129,7 +129,9 @@ def _structure(
             # l1: List[Node]
             # fi: FunctionInteractions
             # If it is a context-independent function, add it to the list of potential implicit dependencies
-            if len(fi.arg_input.named_args) == 0:
+            # (it has no argument, or all its arguments are constants known at introspection time: its signature does
+            # not depend on the calls that come before it)
+            if all(sig is not None for sig in fi.arg_input.named_args.values()):
                 start_nodes += l1
             # Otherwise, there is an implicit dep: introduce a single dep here
             else:
